@@ -17,6 +17,7 @@ type Profile struct {
 	SameRows   bool // concentrate work on few rows / slots (reuse after abort)
 	Checkpoint int  // percentage of transactions followed by a forced checkpoint
 	Reopen     int  // percentage of transactions followed by a restart (crash or clean) inside the history
+	OpenMid    int  // percentage of (non-final) transactions that are left in flight while later transactions run and commit; at most two per history
 	Bulk       int  // percentage of statements that touch many pages at once (8-24 long rows inserted / 8-24 rows enlarged), so that one open transaction dirties more pages than the pool holds
 }
 
@@ -43,6 +44,27 @@ func (g *genState) str(t *rapid.T, l string) string {
 
 func pick(t *rapid.T, ids []int32, l string) int32 {
 	return ids[rapid.IntRange(0, len(ids)-1).Draw(t, l)]
+}
+
+// stmtIDs returns the id interval a generated statement addresses (its inserted ids, or the id bounds of its predicate).
+func stmtIDs(s *dbh.Stmt) (lo, hi int32) {
+	if s.Kind == "insert" {
+		lo, hi = s.Rows[0][0].I, s.Rows[0][0].I
+		for _, r := range s.Rows {
+			if r[0].I < lo {
+				lo = r[0].I
+			}
+			if r[0].I > hi {
+				hi = r[0].I
+			}
+		}
+		return
+	}
+	w := s.Where
+	if w.IsLeaf() {
+		return w.V.I, w.V.I
+	}
+	return w.L.V.I, w.R.V.I
 }
 
 // genStmt draws one statement against the transaction-local view (ids).
@@ -155,6 +177,7 @@ func GenHistory(t *rapid.T, p Profile) *History {
 		g.live[def.Name] = tmp
 	}
 	ntx := rapid.IntRange(1, p.MaxTxns).Draw(t, "ntxns")
+	nOpenMid := 0
 	for i := 0; i < ntx; i++ {
 		spec := TxnSpec{End: "commit"}
 		if rapid.IntRange(0, 99).Draw(t, "abortdie") < p.AbortPct {
@@ -162,6 +185,11 @@ func GenHistory(t *rapid.T, p Profile) *History {
 		}
 		if p.OpenTail && i == ntx-1 && rapid.Bool().Draw(t, "open") {
 			spec.End = "open"
+		}
+		openMid := false
+		if p.OpenMid > 0 && i < ntx-1 && nOpenMid < 2 && rapid.IntRange(0, 99).Draw(t, "openmid") < p.OpenMid {
+			spec.End, openMid = "open", true
+			nOpenMid++
 		}
 		local := map[string][]int32{}
 		for k, v := range g.live {
@@ -188,9 +216,28 @@ func GenHistory(t *rapid.T, p Profile) *History {
 		if spec.End == "commit" {
 			g.live = local
 		}
+		if openMid {
+			// the rows this transaction addressed stay locked until the next crash restart: later transactions are
+			// steered away from them (statements that still reach them through a range are aborted by the engine,
+			// which is the conflict-abort case)
+			for si := range spec.Stmts {
+				lo, hi := stmtIDs(&spec.Stmts[si])
+				tbl := spec.Stmts[si].Table
+				var keep []int32
+				for _, x := range g.live[tbl] {
+					if x < lo || x > hi {
+						keep = append(keep, x)
+					}
+				}
+				g.live[tbl] = keep
+			}
+		}
 		spec.Checkpoint = rapid.IntRange(0, 99).Draw(t, "cp") < p.Checkpoint
 		if p.Reopen > 0 && spec.End != "open" && rapid.IntRange(0, 99).Draw(t, "reopen") < p.Reopen {
 			spec.Reopen = rapid.SampledFrom([]string{"crash", "crash", "clean"}).Draw(t, "reopenkind")
+			if nOpenMid > 0 {
+				spec.Reopen = "crash" // a clean shutdown waits for open transactions
+			}
 		}
 		h.Txns = append(h.Txns, spec)
 	}
